@@ -21,6 +21,26 @@ Theorem validator_is_sound : validator_sound.
 Proof. exact check_func_sound. Qed.
 Print Assumptions validator_is_sound.
 
+(* Exception paths.  At an error check `if is_error(v)` whose value is the error value: the edge to the error target is a
+   legal step, the failed op's result owns nothing there (state unchanged), and everything the function still owns at that
+   point is released exactly once on EVERY continuation: no continuation violates (no double release, no dec_ref of the
+   NULL result, no use after release) and every Return reached afterwards finds nothing owned.  Corollary of checker_sound. *)
+Theorem error_edge_releases_owned : forall f fuel, check_func f fuel = Accept ->
+  forall c0 c1 c2 v, initial_config f c0 -> steps f c0 c1 -> error_edge f v c1 c2 ->
+    step f c1 c2 /\ owned (cst c2 v) = 0 /\ cst c2 = cst c1 /\
+    forall c3, steps f c2 c3 ->
+      ~ violates f c3 /\ (at_return c3 -> leak_free (cterm_final (cterm_ c3) (cst c3))).
+Proof. exact error_edge_sound. Qed.
+Print Assumptions error_edge_releases_owned.
+
+(* Borrowed references, generalised over all ops: no operand read that is ever reached sees a pointer whose owner has given up
+   its last reference (CObj 0 BNone), nor uninitialised memory, nor an undefined local.  Corollary of checker_sound. *)
+Theorem borrowed_value_not_used_after_owner_release : forall f fuel, check_func f fuel = Accept ->
+  forall c0 c v ms, initial_config f c0 -> steps f c0 c -> crest c = MRead v :: ms ->
+    readable (cst c v) = true /\ cst c v <> CObj 0 BNone /\ cst c v <> CUninit /\ cst c v <> CNull true.
+Proof. exact reads_are_valid. Qed.
+Print Assumptions borrowed_value_not_used_after_owner_release.
+
 (* borrowed-reference lifetime is part of [violates]: reading a value borrowed from w after w released its
    last reference is a violation of the concrete semantics (hence excluded by checker_sound) *)
 Theorem use_after_owner_release_violates : forall s w v s' oc,
@@ -190,4 +210,44 @@ Proof.
     - eapply (step_micro _ _ _ _ _ true). reflexivity. }
   eexists. eexists. split; [exact I0|]. split; [exact ST|]. split; [reflexivity|].
   eapply checker_sound with (fuel := 100); [vm_compute; reflexivity | exact I0 | exact ST].
+Qed.
+
+(* the hypotheses of error_edge_releases_owned are satisfiable: in ex_ok the call r2 = g(x) fails, the error edge L1 -> L3 is
+   taken, and L3 (r3 = <error>; return r3) is reached owning nothing *)
+Example error_edge_example :
+  exists c0 c1 c2, initial_config ex_ok c0 /\ steps ex_ok c0 c1 /\ error_edge ex_ok 2%positive c1 c2 /\
+                   check_func ex_ok 100 = Accept.
+Proof.
+  pose (s0 := fun v : val => if Pos.eqb v 1 then CObj 0 BAlways else CUninit).
+  exists (Cfg [MRead 1%positive; MDef 2%positive true true None]
+              (TBranch BIsError (Some 2%positive) false 3%positive 2%positive) s0).
+  exists (Cfg [] (TBranch BIsError (Some 2%positive) false 3%positive 2%positive) (cset 2%positive (CNull false) s0)).
+  exists (Cfg [MDefNull 3%positive] (TReturn (Some 3%positive) true) (cset 2%positive (CNull false) s0)).
+  split; [|split; [|split; [|vm_compute; reflexivity]]].
+  - exists {| bops := [MRead 1%positive; MDef 2%positive true true None];
+              bterm := TBranch BIsError (Some 2%positive) false 3%positive 2%positive |}.
+    split; [vm_compute; reflexivity|]. split; [reflexivity|]. split; [reflexivity|].
+    unfold initial_state. intro v. unfold s0, arg_ok. destruct v; cbn; auto.
+  - eapply steps_step; [eapply steps_step; [apply steps_refl|]|].
+    + eapply (step_micro _ _ _ _ _ false). reflexivity.
+    + eapply (step_micro _ _ _ _ _ true). reflexivity.
+  - exists false, 3%positive, 2%positive, (cset 2%positive (CNull false) s0), false,
+           {| bops := [MDefNull 3%positive]; bterm := TReturn (Some 3%positive) true |}.
+    split; [reflexivity|]. split; [reflexivity|]. split; [vm_compute; reflexivity | reflexivity].
+Qed.
+
+(* hypotheses of borrowed_value_not_used_after_owner_release are satisfiable: the entry of ex_ok stands at an operand read *)
+Example reads_example :
+  exists c0 ms, initial_config ex_ok c0 /\ steps ex_ok c0 c0 /\ crest c0 = MRead 1%positive :: ms /\
+                check_func ex_ok 100 = Accept.
+Proof.
+  pose (s0 := fun v : val => if Pos.eqb v 1 then CObj 0 BAlways else CUninit).
+  exists (Cfg [MRead 1%positive; MDef 2%positive true true None]
+              (TBranch BIsError (Some 2%positive) false 3%positive 2%positive) s0).
+  exists [MDef 2%positive true true None].
+  split; [|split; [apply steps_refl|split; [reflexivity|vm_compute; reflexivity]]].
+  exists {| bops := [MRead 1%positive; MDef 2%positive true true None];
+            bterm := TBranch BIsError (Some 2%positive) false 3%positive 2%positive |}.
+  split; [vm_compute; reflexivity|]. split; [reflexivity|]. split; [reflexivity|].
+  unfold initial_state. intro v. unfold s0, arg_ok. destruct v; cbn; auto.
 Qed.
